@@ -72,6 +72,14 @@ def sweep(arg):
                     L("iso", T, {"form": "sym", "sym": bad, "a": 0}, lambda: t.isotope(bad))
             for bad in {name.capitalize(), name + "s", sym}:
                 L("name", T, {"s": bad}, lambda: t.name(bad))
+            # ---- keys of one route offered to another: a name is not a symbol, a symbol is not a name
+            for bad in (name, name.capitalize()):
+                L("sym", T, {"s": bad}, lambda: t.symbol(bad))
+                L("attr", T, {"s": bad}, lambda: getattr(t, bad))
+                L("iso", T, {"form": "sym", "sym": bad, "a": 0}, lambda: t.isotope(bad))
+            if isos:
+                s_ = "%d-%s" % (isos[0], name)
+                L("iso", T, {"form": "a-sym", "sym": name, "a": isos[0]}, lambda: t.isotope(s_))
             # ---- isotopes
             lo, hi = (min(isos), max(isos)) if isos else (1, 1)
             cand = sorted(set(isos) | {lo - 1, hi + 1, 0, -1, hi + 100} | {a + 1 for a in isos} )
@@ -89,6 +97,12 @@ def sweep(arg):
             qs = sorted(set(ions) | {0, 9, -9} | {q + 1 for q in ions} | {-q for q in ions})
             for q in qs:
                 L("ion", T, {"z": z, "a": 0, "q": q}, lambda: t[z].ion[q])
+            # ---- charges that are not integers are not charges (no rounding to a neighbouring ion)
+            for q in ions[:2]:
+                for bad in (q + 0.5, q - 0.25):
+                    L("ionx", T, {"z": z, "a": 0, "q": repr(bad)}, lambda: t[z].ion[bad])
+                if isos:
+                    L("ionx", T, {"z": z, "a": isos[0], "q": repr(q + 0.5)}, lambda: t[z][isos[0]].ion[q + 0.5])
             for a in isos:
                 if ions and rng.random() <= iso_ion_fraction:
                     for q in ions:
